@@ -150,7 +150,7 @@ func (c *C16a) Run(t *testing.T, scn any) *sim.Outcome {
 	for si := range scheds {
 		for r := 0; r < reps; r++ {
 			n++
-			o := Execute(t, w, RunSpec{Kind: "all", Dir: filepath.Join(dir, fmt.Sprintf("r%d", n)), Manifest: &w.Manifest, Opts: &opts, Sched: scheds[si]})
+			o := Execute(t, w, RunSpec{Kind: "all", Dir: filepath.Join(dir, fmt.Sprintf("r%d", n)), Manifest: &w.Manifest, Opts: &opts, Sched: scheds[si], Salt: fmt.Sprintf("~r%d", n)})
 			out.Executions++
 			out.Count("seam_calls", int64(o.Calls))
 			out.Count("sched_choices", int64(o.Choices))
@@ -189,7 +189,7 @@ func (c *C16a) Run(t *testing.T, scn any) *sim.Outcome {
 	// one free-running computation (no scheduler: the goroutines run as the Go runtime likes), so
 	// that the race detector also sees sharing that the one-at-a-time scheduler serialises
 	n++
-	if o := Execute(t, w, RunSpec{Kind: "all", Dir: filepath.Join(dir, fmt.Sprintf("r%d", n)), Manifest: &w.Manifest, Opts: &opts, Pass: true, Free: true}); !o.Over {
+	if o := Execute(t, w, RunSpec{Kind: "all", Dir: filepath.Join(dir, fmt.Sprintf("r%d", n)), Manifest: &w.Manifest, Opts: &opts, Pass: true, Free: true, Salt: fmt.Sprintf("~r%d", n)}); !o.Over {
 		out.Executions++
 		if d := digest(o); d != ref && !bad {
 			bad = true
@@ -200,7 +200,7 @@ func (c *C16a) Run(t *testing.T, scn any) *sim.Outcome {
 	fref := ""
 	for si := 0; si < len(scheds) && si < 3; si++ {
 		n++
-		o := Execute(t, w, RunSpec{Kind: "fix", Dir: filepath.Join(dir, fmt.Sprintf("r%d", n)), Manifest: &w.Manifest, Opts: &opts, Sched: scheds[si]})
+		o := Execute(t, w, RunSpec{Kind: "fix", Dir: filepath.Join(dir, fmt.Sprintf("r%d", n)), Manifest: &w.Manifest, Opts: &opts, Sched: scheds[si], Salt: fmt.Sprintf("~r%d", n)})
 		out.Executions++
 		if o.Over || o.Deadlock || o.Panic != "" {
 			break
